@@ -53,7 +53,7 @@ ASSUMPTIONS = [
     'days/seconds/microseconds are floor div/mod of the total; total_seconds = us / 10^6',
     'dateutil.tz.tzoffset(None, seconds) is a fixed zone of that many seconds; tzutc() is offset zero',
     'CrossHair models floats as reals: unit conversions are compared as exact rationals']
-EXPLANATION = ('Bounded-free symbolic execution (CrossHair+z3) of the real date_time.py function bodies through the real '
+EXPLANATION = ('Symbolic execution (CrossHair+z3) of the real date_time.py function bodies through the real '
                'yaql dispatch on shim datetime/timedelta/tzinfo subclasses that carry symbolic integers; all laws are '
                'linear integer/rational arithmetic so a confirmed condition holds for every value of the stated '
                'domains. The shim is validated against the C types each run and every counterexample is replayed '
@@ -394,7 +394,7 @@ def ts_scale(t: int) -> bool:
 GRID_WALL = [0, -1, 86399999999, 951782400000000, 951868799999999, 1164126600000000, 1709210096123456,
              -62135337600000000 + MARGIN, 253402300799999999 - MARGIN, 1230768000000000, 1078099199000001]
 GRID_OFF = [0, 180, -90, 1, -1439, 1439, 330]
-if H.P('grid') == 'large' or (H.P('driver') and False):
+if H.P('grid') == 'large':
     GRID_WALL = GRID_WALL + [w + d for w in (951782400000000, 1078099199000001, -2208988800000000, 4102444800000000)
                              for d in (-1, 0, 1, 43200000000, 86399999999)]
     GRID_OFF = GRID_OFF + [-180, 60, 765, -720]
